@@ -8,9 +8,9 @@ LEVEL = 'exploration'
 DESIGN_REF = 'DESIGN.md section 4, C15'
 SINGLE_OUTCOME_OK = False
 BOUNDS = {
-    'quick': 'N=12: all n in 0..12, start/stop in {None,-12..12}, step in {None,1..12}; Sample(k) k in 1..26, n in 0..24; '
+    'quick': 'N=16: all n in 0..16, start/stop in {None,-16..16}, step in {None,1..16}; Sample(k) k in 1..34, n in 0..32; '
              'option strings: all sequences of <=4 tokens from a 12 token alphabet joined by commas + every single token',
-    'thorough': 'N=24 (slices), Sample(k) k in 1..50, n in 0..48; option strings: <=5 tokens from a 14 token alphabet',
+    'thorough': 'N=32 (slices), Sample(k) k in 1..66, n in 0..64; option strings: <=5 tokens from a 14 token alphabet',
 }
 RULE = ('(also: one selector object applied to every length in turn, ascending then descending, as one --frame-slice option is applied to every frame array) full product of (n, start, stop, step) / (k, n) / comma-joined token sequences, each enumerated once; '
         'non-trivial = the selection is non-empty and not the whole sequence (slices, samples) or the string has a comma '
@@ -23,7 +23,7 @@ TOKENS_T = TOKENS_Q + ['12', 'none']
 
 
 def _N(tier):
-    return 12 if tier == 'quick' else 24
+    return 16 if tier == 'quick' else 32
 
 
 def shards(tier):
